@@ -79,6 +79,7 @@ type histOp struct {
 	okRet   bool
 	errText string
 	waiting []string
+	overlap []string // waiting ops: keys of the accepted updates whose call/return interval overlaps this op's
 }
 
 type c09State struct {
@@ -408,6 +409,24 @@ func c09Expected(w *sim.World, n *sim.Node, delivered map[string]bool) []string 
 	return nil
 }
 
+// c09FirstIncomplete is the first round for which a required message is missing (the final round if none is).
+func c09FirstIncomplete(w *sim.World, n *sim.Node, delivered map[string]bool) int {
+	final := sim.FinalRound[w.Proto]
+	for round := 1; round < final; round++ {
+		for _, req := range sim.RequiredFrom(w.Proto, n.Group, round) {
+			for _, sd := range w.Nodes {
+				if sd == n || !(req.From == "all" || req.From == sd.Group) {
+					continue
+				}
+				if !delivered[req.Short+"<"+sd.Name] {
+					return round
+				}
+			}
+		}
+	}
+	return final
+}
+
 // c09PassThroughBefore: is there a round without any required input for n's role at or before the first incomplete round?
 func c09PassThroughBefore(w *sim.World, n *sim.Node, delivered map[string]bool) bool {
 	final := sim.FinalRound[w.Proto]
@@ -496,12 +515,33 @@ func c09Linearizable(w *sim.World, n *sim.Node, ops []histOp) porcupine.CheckRes
 					}
 					have[g] = true
 				}
+				lower := true
 				for _, wnt := range want {
 					if !have[wnt] {
-						return false, s
+						lower = false
 					}
 				}
-				return true, s
+				if lower {
+					return true, s
+				}
+				// One update can carry the party through several rounds (the messages of the later rounds are already
+				// stored); BaseUpdate releases the party lock between those rounds, so a WaitingFor() that runs during such
+				// an update can see any of the rounds in between, each with freshly reset flags. If an update that overlaps
+				// this call in time can complete a round, any duplicate-free list of session parties is a legitimate answer.
+				if len(op.overlap) > 0 {
+					without, with := map[string]bool{}, map[string]bool{}
+					for k := range del {
+						without[k], with[k] = true, true
+					}
+					for _, k := range op.overlap {
+						delete(without, k)
+						with[k] = true
+					}
+					if c09FirstIncomplete(w, n, with) > c09FirstIncomplete(w, n, without) {
+						return true, s
+					}
+				}
+				return false, s
 			}
 			return true, s
 		},
@@ -510,6 +550,16 @@ func c09Linearizable(w *sim.World, n *sim.Node, ops []histOp) porcupine.CheckRes
 			o := in.(histOp)
 			return fmt.Sprintf("%s %s %v", o.kind, o.key, o.waiting)
 		},
+	}
+	for i := range ops {
+		if ops[i].kind != "waiting" {
+			continue
+		}
+		for j := range ops {
+			if ops[j].kind == "update" && ops[j].flagOK && ops[j].call < ops[i].ret && ops[j].ret > ops[i].call {
+				ops[i].overlap = append(ops[i].overlap, ops[j].key)
+			}
+		}
 	}
 	var pops []porcupine.Operation
 	for _, o := range ops {
